@@ -61,6 +61,11 @@ def exec_scenario(scn):
     )
     if replay:
         baton.exit_table = {int(t): to for t, to in (scn.get("exits") or [])}
+    # allocator noise: a seeded number of list objects is held during each judged
+    # call, so that the addresses (ids) a call's own objects get -- and whether they
+    # re-use those freed by an earlier or aborted call -- vary from run to run
+    tab0 = (table[0][2] if table else 0)
+    heap = seeds.Streams(seeds.h64(scn["seed"], "heap", tab0, len(table or ()))).get("heap")
     obs = []          # (t, j, key digest, outcome digest)
     viol = []         # invariant violations: (class, t, j, detail)
     results = []      # retained results of earlier calls
@@ -116,6 +121,7 @@ def exec_scenario(scn):
             clean_ref = list(clean_in) if clean_in is not None else None
             ext_list = ext_ref = None
             res = None
+            junk = [[] for _ in range(heap.randrange(0, 96))]
             try:
                 if kind == "H1":
                     res = ops.h1_call(op, clean_in)
@@ -133,6 +139,7 @@ def exec_scenario(scn):
                 baton.end_op(t)
                 outcome = ("raised", type(e).__name__)
                 stats["raised"] += 1
+            del junk
             if clean_in != clean_ref:
                 viol.append(("input_modified", t, j, {"what": "clean_steps"}))
             if ext_list is not None and (
@@ -462,6 +469,13 @@ def _twin(text, g):
     return text[:i] + d + text[i + 1:]
 
 
+def _twin_op(op, g):
+    o = dict(op)
+    fld = "markup" if o.get("markup") else "text"
+    o[fld] = _twin(o.get(fld) or "", g)
+    return o
+
+
 def effective_op(scn, res, t, j):
     """The judged operation at (t, j): H1c ops are replaced by the plain H1 call
     on the cleaned text the child derived."""
@@ -586,6 +600,7 @@ class Checker:
         self.F = {}               # key digest -> (outcome digest, provenance)
         self.key_ops = {}         # key digest -> the judged operation
         self.sweep_bases = {}
+        self.sweep_twins = {}
         self.suspects = []        # disagreements / invariant violations
         self.harness = []         # harness problems (never verdicts)
         self.baseline_cache = {}
@@ -812,6 +827,9 @@ class Checker:
             absorb(base, res, ("sweep-base", pi))
             sw["pairs"] += 1
             self.sweep_bases[pi] = base
+            # several distinct twins, results dropped at once: a worker loop that
+            # keeps going after a timeout re-uses the addresses the aborted call freed
+            twins_a = self.sweep_twins[pi] = [dict(_twin_op(opa, g), keep=False) for _ in range(3)]
             sites = res["sites"].get("0.0", [])
             sites_b = res["sites"].get("1.0", [])
             if op_mode:
@@ -844,7 +862,10 @@ class Checker:
                     yield dict(base, table=[[0, 0, k, "switch", 1]])
                 for (k1, k2) in dpoints:
                     yield dict(base, table=[[0, 0, k1, "switch", 1], [1, 0, k2, "switch", 0]], double=True)
-                single = dict(base, threads=[[opa, dict(opa), opb, {"op": "RC"}]], exits=[])
+                # after the aborted call: a near-twin of A (same length and token
+                # count, one digit changed -- what an identity- or shape-keyed leftover
+                # of the aborted call would be confused with), A itself, then B
+                single = dict(base, threads=[[opa] + twins_a + [dict(opa), opb, {"op": "RC"}]], exits=[])
                 for k in cpoints:
                     yield dict(single, table=[[0, 0, k, "cancel", None]])
 
@@ -927,7 +948,8 @@ class Checker:
             if prov[0] == "sweep2":
                 return dict(base, table=[[0, 0, prov[2], "switch", 1], [1, 0, prov[3], "switch", 0]])
             opa, opb = base["threads"][0][0], base["threads"][1][0]
-            return dict(base, threads=[[opa, dict(opa), opb, {"op": "RC"}]], exits=[],
+            twins = self.sweep_twins.get(prov[1]) or []
+            return dict(base, threads=[[opa] + twins + [dict(opa), opb, {"op": "RC"}]], exits=[],
                         table=[[0, 0, prov[2], "cancel", None]])
         return None
 
